@@ -132,6 +132,53 @@ Fixpoint run_untils (fuel : nat) (nxt : stepfn) (es : list Z) (s : sim) : result
 Definition interactive_session (fuel : nat) (nxt : stepfn) (es : list Z) (s : sim) : result sim :=
   run_untils fuel nxt es (initialize nxt (do_setup s)).
 
+(* ---- listeners that raise ----
+   A listener that raises ends everything at once: EventChannel.emit's loops, engine.step's loop over the four events and
+   run()'s loop are plain python loops without try/except, so the exception propagates out of all of them.  The listeners
+   called so far (the raising one included) have run; no later listener, no later event of the step, no step_forward.
+   [bad] says which call raises (it may depend on the listener and on the clock at the call).
+   Results are (state at the point of abandonment, raised?). *)
+Definition tc_lid (a : tcall) : lid := let '(_, (_, l, _, _, _)) := a in l.
+Definition tc_clock (a : tcall) : Z := let '(_, (_, _, t, _, _)) := a in t.
+
+Fixpoint call_until (bad : tcall -> bool) (l : list tcall) : list tcall * bool :=
+  match l with
+  | [] => ([], false)
+  | x :: r => if bad x then ([x], true) else let '(m, b) := call_until bad r in (x :: m, b)
+  end.
+(* EventChannel.emit with a raising listener *)
+Definition emit_r (bad : tcall -> bool) (s : sim) (c : cid) : sim * bool :=
+  let '(l, b) := call_until bad (emission_tcalls (lst s) (clock s) (stepsz s) c) in (with_calls s l, b).
+(* the loop over the events of one step *)
+Fixpoint emits_r (bad : tcall -> bool) (s : sim) (cs : list cid) : sim * bool :=
+  match cs with
+  | [] => (s, false)
+  | c :: r => let '(s', b) := emit_r bad s c in if b then (s', true) else emits_r bad s' r
+  end.
+Definition step_r (bad : tcall -> bool) (nxt : stepfn) (s : sim) : sim * bool :=
+  let '(s', b) := emits_r bad s step_channels in
+  if b then (s', true) else (count_step (step_forward nxt s'), false).
+Fixpoint run_loop_r (fuel : nat) (bad : tcall -> bool) (nxt : stepfn) (s : sim) : result (sim * bool) :=
+  if clock s <? stop s then
+    match fuel with
+    | O => OutOfFuel
+    | S f => let '(s', b) := step_r bad nxt s in if b then Ok (s', true) else run_loop_r f bad nxt s'
+    end
+  else Ok (s, false).
+(* setup (post_setup emission), initialize_simulants, run, finalize, report - abandoned at the first raising listener *)
+Definition run_simulation_r (fuel : nat) (bad : tcall -> bool) (nxt : stepfn) (s : sim) : result (sim * bool) :=
+  let '(s1, b1) := emit_r bad s ch_post_setup in
+  if b1 then Ok (s1, true) else
+  match run_loop_r fuel bad nxt (initialize nxt s1) with
+  | Ok (s2, true) => Ok (s2, true)
+  | Ok (s2, false) =>
+      if nsteps s2 =? 0 then Rejected EInvalidTransition else
+      let '(s3, b3) := emit_r bad s2 ch_end in
+      if b3 then Ok (s3, true) else Ok (emit_r bad s3 ch_report)
+  | Rejected e => Rejected e
+  | OutOfFuel => OutOfFuel
+  end.
+
 (* the number of steps the property promises *)
 Definition steps_needed (start stop_ st : Z) : Z := if start <? stop_ then (stop_ - start + st - 1) / st else 0.
 
@@ -198,6 +245,30 @@ Definition check_sim (c : sim_case) : bool :=
                            (map (fun o : ocall => let '(c, l, t, e, sz, _) := o in (c, l, t, e, sz)) ocalls)))
            (canon (calls s))
       && forallb (fun o : ocall => let '(c, _, _, _, _, state) := o in c =? state) ocalls
+      && list_eqb icall_eqb (sort_icalls oinits) (sort_icalls (icalls s))
+      && (oclock =? clock s) && (osteps =? nsteps s)
+  | Rejected EInvalidTransition => ocode =? 1
+  | Rejected _ => ocode =? 2
+  | OutOfFuel => false
+  end.
+
+(* ---- correspondence 3: real contexts with a listener that raises ----
+   case = (start, stop, step, raising listener, clock from which it raises, components,
+           observed: probe log, initializer log, final clock, number of COMPLETED step() calls,
+           outcome (0 returned normally, 1 InvalidTransitionError, 3 the probe's exception propagated)) *)
+Definition raise_case := (Z * Z * Z * lid * Z * list comp * (list ocall * list oinit * Z * Z * Z))%type.
+Definition raises_when (r : lid) (from : Z) : tcall -> bool := fun tc => (tc_lid tc =? r) && (from <=? tc_clock tc).
+Definition check_raise (c : raise_case) : bool :=
+  let '(start, stop_, st, r, from, cs, (ocalls, oinits, oclock, osteps, ocode)) := c in
+  let s0 := mk_sim start stop_ st cs in
+  match run_simulation_r (S (Z.to_nat osteps)) (raises_when r from) fixed s0 with
+  | Ok (s, raised) =>
+      (ocode =? (if raised then 3 else 0))
+      && Nat.eqb (length ocalls) (length (calls s))
+      && list_eqb tcall_eqb
+           (canon (combine (map fst (calls s))
+                           (map (fun o : ocall => let '(c, l, t, e, sz, _) := o in (c, l, t, e, sz)) ocalls)))
+           (canon (calls s))
       && list_eqb icall_eqb (sort_icalls oinits) (sort_icalls (icalls s))
       && (oclock =? clock s) && (osteps =? nsteps s)
   | Rejected EInvalidTransition => ocode =? 1
